@@ -126,20 +126,55 @@ INFLIGHT_DIR = os.path.join(VERIF, ".cache", "inflight")
 
 
 def _worker_chunk(seeds):
+    """Runs a chunk of seeds; returns a chunk-level aggregate (counts, digest
+    and state hashes as uint64 arrays), the full records of runs that ended in
+    a violation or harness error, and one sample trace."""
     from sim import engine
+    import numpy as np
 
-    out = []
     marker = os.path.join(INFLIGHT_DIR, str(os.getpid()))
+    agg = {"n": 0, "faults": {}, "probes": {}, "ops": {}, "outcomes": {}, "steps": 0,
+           "sim_time": 0.0, "fault_free": 0, "wall": 0.0}
+    digests, nontrivial, states = [], [], []
+    bad = []
+    sample = None
     for s in seeds:
         with open(marker, "w") as f:
             f.write(str(s))
         r = engine.run_seed(_WORLD, s)
-        out.append(_pack(r))
+        p = _pack(r)
+        st = p["stats"]
+        agg["n"] += 1
+        engine.merge_counts(agg["faults"], st["faults"])
+        engine.merge_counts(agg["probes"], st["probes"])
+        engine.merge_counts(agg["ops"], st["ops"])
+        engine.merge_counts(agg["outcomes"], st["outcomes"])
+        agg["steps"] += st["steps"]
+        agg["sim_time"] += st["sim_time"]
+        agg["wall"] += p["wall"]
+        if not st["faults"]:
+            agg["fault_free"] += 1
+        digests.append(int(p["digest"], 16))
+        nontrivial.append(p["nontrivial"])
+        states.extend(x % (1 << 64) for x in p["states"])
+        if p["vclass"] or p["error"]:
+            bad.append(p)
+        if sample is None and not p["error"]:
+            sample = {"seed": p["seed"], "knobs": p["knobs"], "ops": p["ops"][:12], "n_ops": len(p["ops"])}
     try:
         os.unlink(marker)
     except OSError:
         pass
-    return out
+    return {"agg": agg, "digests": np.array(digests, dtype=np.uint64),
+            "nontrivial": np.array(nontrivial, dtype=bool),
+            "states": np.unique(np.array(states, dtype=np.uint64)) if states else np.zeros(0, dtype=np.uint64),
+            "bad": bad, "sample": sample, "seeds": (seeds[0], seeds[-1])}
+
+
+def _worker_digests(seeds):
+    from sim import engine
+
+    return [_pack(engine.run_seed(_WORLD, s)) for s in seeds]
 
 
 def _pack(r):
@@ -298,7 +333,7 @@ def run_batch(world_cls, tier, base_seed, nruns, workers, wall_cap, log):
 
     prop = world_cls.PROP
     seeds = [base_seed * 1_000_000 + i for i in range(nruns)]
-    chunk = max(1, min(25, nruns // (workers * 4) or 1))
+    chunk = max(1, min(200, nruns // (workers * 8) or 1))
     chunks = [seeds[i : i + chunk] for i in range(0, len(seeds), chunk)]
     t0 = time.time()
     results = []
@@ -319,7 +354,7 @@ def run_batch(world_cls, tier, base_seed, nruns, workers, wall_cap, log):
         try:
             for f in as_completed(futs, timeout=wall_cap):
                 try:
-                    results.extend(f.result())
+                    results.append(f.result())
                 except Exception as e:  # noqa: BLE001  worker died
                     if not errors:
                         errors.append(f"WORKER-DIED {e!r}")
@@ -346,36 +381,36 @@ def run_batch(world_cls, tier, base_seed, nruns, workers, wall_cap, log):
 def summarize(world_cls, tier, base_seed, results, wall, violations, known_hit,
               stopped_early, extra=None):
     from sim import engine
+    import numpy as np
 
     faults, probes, ops, outcomes = {}, {}, {}, {}
     steps = 0
     sim_time = 0.0
-    digests = set()
-    nontrivial_digests = set()
-    states = set()
-    for r in results:
-        st = r["stats"]
-        engine.merge_counts(faults, st["faults"])
-        engine.merge_counts(probes, st["probes"])
-        engine.merge_counts(ops, st["ops"])
-        engine.merge_counts(outcomes, st["outcomes"])
-        steps += st["steps"]
-        sim_time += st["sim_time"]
-        digests.add(r["digest"])
-        if r["nontrivial"]:
-            nontrivial_digests.add(r["digest"])
-        states.update(r["states"])
-    n = len(results)
-    fault_free = sum(1 for r in results if not r["stats"]["faults"])
-    samples = []
-    for r in results[:: max(1, n // 3)][:3]:
-        samples.append(
-            {"seed": r["seed"], "knobs": r["knobs"], "ops": r["ops"][:12],
-             "n_ops": len(r["ops"])}
-        )
+    n = 0
+    fault_free = 0
+    for c in results:
+        a = c["agg"]
+        engine.merge_counts(faults, a["faults"])
+        engine.merge_counts(probes, a["probes"])
+        engine.merge_counts(ops, a["ops"])
+        engine.merge_counts(outcomes, a["outcomes"])
+        steps += a["steps"]
+        sim_time += a["sim_time"]
+        n += a["n"]
+        fault_free += a["fault_free"]
+    if results:
+        dig = np.concatenate([c["digests"] for c in results])
+        ntv = np.concatenate([c["nontrivial"] for c in results])
+        sts = np.concatenate([c["states"] for c in results])
+    else:
+        dig = ntv = sts = np.zeros(0)
+    n_distinct = int(np.unique(dig).size)
+    n_nontrivial = int(np.unique(dig[ntv.astype(bool)]).size) if n else 0
+    n_states = int(np.unique(sts).size)
+    samples = [c["sample"] for c in results[:: max(1, len(results) // 3)][:3] if c["sample"]]
     cov = {
         "evaluations": n,
-        "distinct_nontrivial": len(nontrivial_digests),
+        "distinct_nontrivial": n_nontrivial,
         "rule": world_cls.RULE,
         "samples": samples,
         "steps": steps,
@@ -387,8 +422,8 @@ def summarize(world_cls, tier, base_seed, results, wall, violations, known_hit,
         "probes": probes,
         "ops": ops,
         "outcomes": outcomes,
-        "distinct_schedules": len(digests),
-        "distinct_states": len(states),
+        "distinct_schedules": n_distinct,
+        "distinct_states": n_states,
         "runs_without_any_fault": fault_free,
         "components": world_cls.COMPONENTS,
         "known_findings_reproduced": sorted(known_hit),
@@ -475,7 +510,7 @@ def main(argv=None):
                                      initializer=_worker_init,
                                      initargs=(prop,)) as ex:
                 chunks = [seeds[i::args.workers] for i in range(args.workers)]
-                for res in ex.map(_worker_chunk, chunks):
+                for res in ex.map(_worker_digests, chunks):
                     for r in res:
                         out[r["seed"]] = (r["digest"], r["vclass"], r["error"] and r["error"][:200])
         else:
@@ -613,11 +648,13 @@ def main(argv=None):
             print(f"VIOLATION property={prop} replay={crash}")
             errors = [e for e in errors if not e.startswith("WORKER-DIED")]
     harness_errors.extend(errors)
-    for r in results:
+    allbad = [r for c in results for r in c["bad"]]
+    for r in allbad:
         if r["error"]:
             harness_errors.append(f"seed {r['seed']}: {r['error']}")
-    bad = [r for r in results if r["vclass"]]
-    log(f"{len(results)} runs in {wall:.1f}s, {len(bad)} runs with a violation, "
+    bad = [r for r in allbad if r["vclass"]]
+    nruns_done = sum(c["agg"]["n"] for c in results)
+    log(f"{nruns_done} runs in {wall:.1f}s, {len(bad)} runs with a violation, "
         f"{len(harness_errors)} harness errors")
 
     # group by class; shrink representatives of each class until each is
